@@ -493,17 +493,28 @@ func writeOrdered(t testing.TB, reg *driver.RegistryDefault, tuples []*ketoapi.R
 	ctx := context.Background()
 	conn := reg.Persister().Connection(ctx)
 	for i, rt := range tuples {
-		its, err := reg.Mapper().FromTuple(ctx, rt)
-		if err != nil {
-			t.Fatalf("map %v: %v", rt, err)
+		// stragglers of an earlier (cancelled) check may still hold the table: sqlite lock errors are retried
+		var its []*relationtuple.RelationTuple
+		retry(t, "map", func() (err error) { its, err = reg.Mapper().FromTuple(ctx, rt); return })
+		retry(t, "write", func() error { return reg.RelationTupleManager().WriteRelationTuples(ctx, its...) })
+		retry(t, "order", func() error {
+			return conn.RawQuery("UPDATE keto_relation_tuples SET shard_id = ? WHERE rowid = (SELECT MAX(rowid) FROM keto_relation_tuples)",
+				fmt.Sprintf("00000000-0000-4000-8000-%012d", i+1)).Exec()
+		})
+	}
+}
+
+func retry(t testing.TB, what string, f func() error) {
+	for try := 0; ; try++ {
+		err := f()
+		if err == nil {
+			return
 		}
-		if err := reg.RelationTupleManager().WriteRelationTuples(ctx, its...); err != nil {
-			t.Fatalf("write %v: %v", rt, err)
+		msg := err.Error()
+		if try > 1500 || !(strings.Contains(msg, "locked") || strings.Contains(msg, "serialize access") || strings.Contains(msg, "busy")) {
+			t.Fatalf("%s: %v", what, err)
 		}
-		if err := conn.RawQuery("UPDATE keto_relation_tuples SET shard_id = ? WHERE rowid = (SELECT MAX(rowid) FROM keto_relation_tuples)",
-			fmt.Sprintf("00000000-0000-4000-8000-%012d", i+1)).Exec(); err != nil {
-			t.Fatalf("order: %v", err)
-		}
+		time.Sleep(2 * time.Millisecond)
 	}
 }
 
